@@ -16,7 +16,7 @@ var MaxIntrospectionDepth = Rule{
 		// returns `true` if the limit has been reached.
 		observers.OnField(func(walker *Walker, field *ast.Field) {
 			if field.Name == "__schema" || field.Name == "__type" {
-				visitedFragments := make(map[string]bool)
+				visitedFragments := &introspectionDepthState{visited: make(map[string]bool), clean: make(map[fragmentAtDepth]bool)}
 				if checkDepthField(field, visitedFragments, 0) {
 					addError(
 						Message(`Maximum introspection depth exceeded`),
@@ -29,7 +29,7 @@ var MaxIntrospectionDepth = Rule{
 	},
 }
 
-func checkDepthSelectionSet(selectionSet ast.SelectionSet, visitedFragments map[string]bool, depth int) bool {
+func checkDepthSelectionSet(selectionSet ast.SelectionSet, visitedFragments *introspectionDepthState, depth int) bool {
 	for _, child := range selectionSet {
 		if field, ok := child.(*ast.Field); ok {
 			if checkDepthField(field, visitedFragments, depth) {
@@ -50,7 +50,7 @@ func checkDepthSelectionSet(selectionSet ast.SelectionSet, visitedFragments map[
 	return false
 }
 
-func checkDepthField(field *ast.Field, visitedFragments map[string]bool, depth int) bool {
+func checkDepthField(field *ast.Field, visitedFragments *introspectionDepthState, depth int) bool {
 	if field.Name == "fields" ||
 		field.Name == "interfaces" ||
 		field.Name == "possibleTypes" ||
@@ -63,10 +63,17 @@ func checkDepthField(field *ast.Field, visitedFragments map[string]bool, depth i
 	return checkDepthSelectionSet(field.SelectionSet, visitedFragments, depth)
 }
 
-func checkDepthFragmentSpread(fragmentSpread *ast.FragmentSpread, visitedFragments map[string]bool, depth int) bool {
+func checkDepthFragmentSpread(fragmentSpread *ast.FragmentSpread, visitedFragments *introspectionDepthState, depth int) bool {
 	fragmentName := fragmentSpread.Name
-	if visited, ok := visitedFragments[fragmentName]; ok && visited {
+	if visited, ok := visitedFragments.visited[fragmentName]; ok && visited {
 		// Fragment cycles are handled by `NoFragmentCyclesRule`.
+		visitedFragments.skipped++
+		return false
+	}
+	if visitedFragments.clean[fragmentAtDepth{fragmentName, depth}] {
+		// Already found to stay below the limit from this depth: a fragment reached
+		// along many paths (each fragment spreading the next one twice) is not walked
+		// once per path.
 		return false
 	}
 	fragment := fragmentSpread.Definition
@@ -80,9 +87,26 @@ func checkDepthFragmentSpread(fragmentSpread *ast.FragmentSpread, visitedFragmen
 	// take a mutable approach for efficiency's sake. Importantly visiting a
 	// fragment twice is fine, so long as you don't do one visit inside the
 	// other.
-	visitedFragments[fragmentName] = true
-	defer delete(visitedFragments, fragmentName)
-	return checkDepthSelectionSet(fragment.SelectionSet, visitedFragments, depth)
+	visitedFragments.visited[fragmentName] = true
+	defer delete(visitedFragments.visited, fragmentName)
+	skippedBefore := visitedFragments.skipped
+	exceeded := checkDepthSelectionSet(fragment.SelectionSet, visitedFragments, depth)
+	if !exceeded && visitedFragments.skipped == skippedBefore {
+		// only remember results that did not depend on what was being visited
+		visitedFragments.clean[fragmentAtDepth{fragmentName, depth}] = true
+	}
+	return exceeded
+}
+
+type fragmentAtDepth struct {
+	name  string
+	depth int
+}
+
+type introspectionDepthState struct {
+	visited map[string]bool
+	clean   map[fragmentAtDepth]bool
+	skipped int
 }
 
 func init() {
